@@ -177,6 +177,10 @@ func DiffDigest(a, b map[string]uint64) []string {
 // ---- snapshot / restore of package state (so that every explored execution starts equal) ------
 
 var snapshot []reflect.Value
+var snapshotNodes []int
+
+// SmallVarNodes: variables whose reachable state has fewer nodes than this are always restored.
+const SmallVarNodes = 4000
 
 func settable(v reflect.Value) reflect.Value {
 	if v.CanSet() {
@@ -270,12 +274,15 @@ func (c *copier) deepCopy(dst, src reflect.Value) {
 
 // Snapshot records a deep copy of the package state (call once, before any exploration).
 func Snapshot() {
-	snapshot = nil
+	snapshot, snapshotNodes = nil, nil
 	for _, sv := range StateVars {
 		src := reflect.ValueOf(sv.Ptr).Elem()
 		cp := reflect.New(src.Type()).Elem()
 		(&copier{ptrs: map[uintptr]reflect.Value{}}).deepCopy(cp, src)
 		snapshot = append(snapshot, cp)
+		h := &hasher{seen: map[uintptr]bool{}}
+		h.value(src)
+		snapshotNodes = append(snapshotNodes, h.nodes)
 	}
 }
 
@@ -289,7 +296,7 @@ func Restore() {
 		if i >= len(snapshot) {
 			return
 		}
-		if !RestoreSet[sv.Name] {
+		if !RestoreSet[sv.Name] && snapshotNodes[i] >= SmallVarNodes {
 			continue
 		}
 		dst := reflect.ValueOf(sv.Ptr).Elem()
